@@ -15,7 +15,7 @@ def run(pid, tier, seed, replay=None):
             raise vlib.Infra("CApi BFS failed: %s\n%s" % (res.violated, res.out[-1500:]))
         ck.add_tlc("CApi/MC_CApi.cfg (BFS)", res)
         seqs = []
-        res = vlib.run_tlc("CApi", "Gen_CApi.cfg", tag="capigen", workers=4, simulate=(20 if tier == "quick" else 300), depth=31, seed=seed,
+        res = vlib.run_tlc("CApi", "Gen_CApi.cfg", tag="capigen", workers=4, simulate=(60 if tier == "quick" else 300), depth=31, seed=seed,
                            sink=seqs.append, timeout=1500)
         if res.violated or not seqs:
             raise vlib.Infra("CApi simulation failed: %s\n%s" % (res.violated, res.out[-1500:]))
@@ -26,7 +26,7 @@ def run(pid, tier, seed, replay=None):
             if k not in seen:
                 seen.add(k)
                 uniq.append(s)
-        seqs = uniq[: (120 if tier == "quick" else 2500)]
+        seqs = uniq[: (400 if tier == "quick" else 2500)]
         # directed sequences: every function with every argument class on a table read from each valid file
         directed = []
         for file in (1, 2):
